@@ -96,9 +96,14 @@ namespace RecInt
     }
     template <size_t K, typename T>
     inline __RECINT_IS_ARITH(T, rint<K>&) operator%=(rint<K>& a, const T& b) {
-        T aa;
-        div_r(aa, a, b);
-        return (a = aa);
+        // remainder of the truncated division: |a| mod |b| with the sign of a
+        // (going through a T temporary lost the sign for an unsigned T and did not compile for a negative a)
+        const bool nega = a.isNegative();
+        ruint<K> m(nega ? (-a).Value : a.Value);
+        m %= (__recint_isneg(b) ? __recint_mag(b) : limb(b));
+        a.Value = m;
+        if (nega) a = -a;
+        return a;
     }
 
     // Operator /=
@@ -220,7 +225,8 @@ namespace RecInt
         if (a.isNegative()) {
             rint<K> aa(-a);
             div_r(r, aa.Value, b);
-            return -r;
+            r = -r;
+            return r;
         }
         else {
             div_r(r, a.Value, b);
